@@ -29,6 +29,11 @@ type table struct {
 	empty0  bool // FromString: len(s)==0 -> 0
 }
 
+var (
+	jsonTypes []string
+	jsonVals  = map[string][]int64{}
+)
+
 func must(err error) {
 	if err != nil {
 		panic(err)
@@ -328,6 +333,8 @@ func genEnums(repo, out string) {
 			}
 		}
 		sort.Slice(vals, func(i, j int) bool { return vals[i] < vals[j] })
+		jsonTypes = append(jsonTypes, typ)
+		jsonVals[typ] = vals
 		fmt.Fprintf(os.Stderr, "%-18s string:%-6s %3d  from:%-6s %3d  consts:%3d empty0=%v\n", typ, s1, len(e1), s2, len(e2), len(vals), empty0)
 		fmt.Fprintf(&b, "Definition %s_tables : enum_tables := {|\n  e_name := %s;\n  e_values := [", typ, coqBytes(typ))
 		for i, v := range vals {
@@ -355,4 +362,22 @@ func genEnums(repo, out string) {
 	}
 	fmt.Fprintf(&b, "Definition all_enums : list enum_tables := [%s].\n", strings.Join(all, "; "))
 	must(os.WriteFile(out, []byte(b.String()), 0o644))
+	// side file for the harness: the declared constant values of every enum type
+	var js strings.Builder
+	js.WriteString("{")
+	for i, t := range jsonTypes {
+		if i > 0 {
+			js.WriteString(",")
+		}
+		fmt.Fprintf(&js, "\n %q: [", t)
+		for j, v := range jsonVals[t] {
+			if j > 0 {
+				js.WriteString(",")
+			}
+			fmt.Fprintf(&js, "%d", v)
+		}
+		js.WriteString("]")
+	}
+	js.WriteString("\n}\n")
+	must(os.WriteFile(filepath.Join(filepath.Dir(out), "enums.json"), []byte(js.String()), 0o644))
 }
